@@ -3,7 +3,7 @@ C01 — integer expressions have the C11 value and the C11 type.
 
 Property theorems only (definitions and helper lemmas: Model/C01Expr, Model/C01ExprJ, Model/X86Jump, Lemmas/C01Lemmas,
 C01OpLemmas, C01ArithLemmas, C01Select, C01MemLemmas, C01Compose, C01Frame, C01Value, C01Effects, C01Machine, C01EffectsValue,
-C01Pointer, C01PointerAssign, C01Jump, C01JumpMachine, C01JumpCompile, C01EffectsFull, C01ValueFull, C01LabelText).
+C01Pointer, C01PointerAssign, C01Jump, C01JumpMachine, C01JumpCompile, C01EffectsFull, C01ValueFull, C01LabelText, C01Lvalue, C01LvalueRoot; Model/C01Lvalue).
 
 Objects:
 * `Gen.CommonType.getCommonType`, `opRule`  — regenerated from type.c on every check (translator);
@@ -32,6 +32,7 @@ import ChibiVerif.Lemmas.C01Pointer
 import ChibiVerif.Lemmas.C01PointerAssign
 import ChibiVerif.Lemmas.C01ValueFull
 import ChibiVerif.Lemmas.C01LabelText
+import ChibiVerif.Lemmas.C01LvalueRoot
 
 namespace ChibiVerif.Props.C01
 open ChibiVerif.C01 ChibiVerif.X86 ChibiVerif.Asm ChibiVerif.Spec.IntSpec ChibiVerif.Gen.CommonType ChibiVerif.C01Codegen
@@ -496,6 +497,165 @@ theorem C01_ptr_postfix (isDec : Bool) (σ : Env) (off toff : Nat → Int) (j : 
 
 example : ptrEnv.tys[0]? = some .u64 ∧ ptrEnv.vals[0]? = some 0x100000000000 ∧ ITy.i64.inRange 4 ∧
     FrameX ptrEnv exOff ptrToff 1 3 ptrState := ⟨rfl, rfl, by decide, ptrFrameX⟩
+
+/-! ## lvalues other than variables: `s.m`, `a[i]`, `*p`, `p->m`, `p[i]` and their nestings
+
+`LVal` (Model/C01Lvalue) are the lvalue forms of `gen_addr`; `lvAddr` is the address C11 gives the lvalue (6.5.2.1, 6.5.2.3,
+6.5.3.2, 6.5.6p8: base + member offsets + index × element size; the value of `p` for `*p`), with the store after its index
+expression (any expression of the full type `E`) has been evaluated.  "The lvalue designates variable `i`" is: that address
+is the address of `i` (`frameAddr bp (off i)`) and `i` has the lvalue's type.  The store may hold absolute addresses (a pointer
+variable pointing at a variable of the frame): they refer to the frame at the `%rbp` of the machine state of the theorem.
+The lvalue is the root of the expression (read, `=`, `op=`); right-hand sides and index expressions are of type `E`.
+Tie: instruction / label / jump text of generated functions over struct, array and pointer objects (checklib/C01.py leg b4),
+member offsets by the psABI layout rule. -/
+
+/-- **the value of an lvalue** (`gen_addr; load`): if the lvalue designates variable `i` of type `t` holding `v`, the code
+    terminates within its length, leaves `%rax` representing `v` in type `t`, and the frame holds the store after the index
+    expression. -/
+theorem C01_lvalue_load (σ : Env) (off toff : Nat → Int) (lv : LVal) (t : ITy) (code : List JI) (K c0 c1 : Nat) (σ0 : Env)
+    (i : Nat) (v : Int) (m : State)
+    (hc : compileL σ.tys off toff 0 c0 (.load lv t) = some (t, code, K, c1))
+    (haddr : lvAddr (m.get .rbp) off σ lv = some (frameAddr (m.get .rbp) (off i), σ0))
+    (hnc : noConflictL lv = true) (hwf : wfL lv = true) (hti : σ.tys[i]? = some t) (hv : σ0.vals[i]? = some v)
+    (hf : FrameX σ off toff K (depthL lv) m) :
+    ∃ m', runJ code.length code 0 m = some m' ∧ Represents t (m'.get .rax) v ∧ m'.get .rsp = m.get .rsp ∧
+      m'.get .rbp = m.get .rbp ∧ FrameX σ0 off toff K (depthL lv) m' ∧
+      (∀ a : BitVec 64, (m.get .rsp).toNat ≤ a.toNat → ¬ inVar σ.tys off (m.get .rbp) (wrL lv) a →
+        ¬ inTmp toff (m.get .rbp) 0 K a → m'.mem a = m.mem a) := by
+  have hnd := (compileL_nodup σ.tys off toff 0 c0 _ t code K c1 hc).1
+  simp only [compileL, Option.map_eq_some_iff, Prod.mk.injEq] at hc
+  obtain ⟨⟨ca, k, c⟩, hca, _, h2, h3, h4⟩ := hc
+  simp only at h2 h3 h4
+  subst h2 h3 h4
+  have Ea := addr_ev (m.get .rbp) off toff k lv σ ca _ σ0 0 k c0 c hca haddr hnc hwf (Nat.le_refl _)
+  obtain ⟨hty, hE⟩ := EvJ.loadL (i := i) (t := t) (v := v) Ea (by rw [Ea.1]; exact hti) hv
+  obtain ⟨m', hrun, hrep, hH, hu⟩ := hE m (depthL lv) _ rfl hf.2.1 (Nat.le_refl _) hf.1 (Nat.le_refl _) hf.2.2
+  refine ⟨m', hrun.runJ hnd, hrep, hu.rsp, hu.rbp, ?_, hu.mem⟩
+  exact ⟨by rw [hu.rsp]; exact hf.1, by rw [hty, hu.rsp, hu.rbp]; exact hf.2.1, hH⟩
+
+/-- non-vacuity: `int x = 7; int *p = &x;` in a concrete frame — `*p` designates `x` -/
+example : ∃ code, compileL lvEnv.tys exOff ptrToff 0 1 (.load (.deref 0) .i32) = some (.i32, code, 0, 1) ∧
+    lvAddr (lvState.get .rbp) exOff lvEnv (.deref 0) = some (frameAddr (lvState.get .rbp) (exOff 1), lvEnv) ∧
+    lvEnv.tys[1]? = some .i32 ∧ lvEnv.vals[1]? = some 7 ∧ FrameX lvEnv exOff ptrToff 0 (depthL (.deref 0)) lvState :=
+  ⟨_, rfl, lvAddr_ex, rfl, rfl, lvFrameX 0 _ (by omega) (by decide)⟩
+
+/-- **`lv = e`** (ND_ASSIGN: `gen_addr(lv); push; e; conversion; store`): if the lvalue designates variable `i` of type `t` and
+    C11 defines the value `v` of `e` (evaluated after the index expression of the lvalue: chibicc's order; C11 leaves the two
+    unsequenced, and under the no-conflict condition the order is immaterial), the code terminates, leaves `%rax`
+    representing the converted value — the value of the assignment expression —, and the frame holds the store after `e`
+    with `i` set to `(t)v`; nothing else at or above `%rsp` changes. -/
+theorem C01_lvalue_assign (σ : Env) (off toff : Nat → Int) (lv : LVal) (t : ITy) (e : E) (code : List JI) (K c0 c1 : Nat)
+    (σ0 σ1 : Env) (i : Nat) (v : Int) (m : State)
+    (hc : compileL σ.tys off toff 0 c0 (.assign lv t e) = some (t, code, K, c1))
+    (haddr : lvAddr (m.get .rbp) off σ lv = some (frameAddr (m.get .rbp) (off i), σ0))
+    (hv : evalE σ0 e = some (v, σ1)) (hnc : noConflictL lv = true) (hnce : noConflict e = true) (hwf : wfL lv = true)
+    (hti : σ.tys[i]? = some t) (hf : FrameX σ off toff K (max (depthL lv) (depthJ e + 1)) m) :
+    ∃ m', runJ code.length code 0 m = some m' ∧ Represents t (m'.get .rax) (convert t v) ∧ m'.get .rsp = m.get .rsp ∧
+      m'.get .rbp = m.get .rbp ∧ FrameX (σ1.set i (convert t v)) off toff K (max (depthL lv) (depthJ e + 1)) m' ∧
+      (∀ a : BitVec 64, (m.get .rsp).toNat ≤ a.toNat → ¬ inVar σ.tys off (m.get .rbp) (wrL lv ++ (i :: wr e)) a →
+        ¬ inTmp toff (m.get .rbp) 0 K a → m'.mem a = m.mem a) := by
+  have hnd := (compileL_nodup σ.tys off toff 0 c0 _ t code K c1 hc).1
+  simp only [compileL] at hc
+  cases hca : addrCode σ.tys off toff 0 c0 lv with
+  | none => simp [hca] at hc
+  | some pa =>
+    obtain ⟨ca, ka, cca⟩ := pa
+    simp only [hca, Option.map_eq_some_iff, Prod.mk.injEq] at hc
+    obtain ⟨⟨te, ce, ke, cce⟩, hce, _, h2, h3, h4⟩ := hc
+    simp only at h2 h3 h4
+    subst h2 h3 h4
+    have fa := addrCode_facts σ.tys off toff lv 0 c0 ca ka cca hca
+    have fe := compileJ_facts σ.tys off toff e ka cca te ce ke cce hce
+    have Ea := addr_ev (m.get .rbp) off toff ke lv σ ca _ σ0 0 ka c0 cca hca haddr hnc hwf fe.k
+    have Ee := (value_j (AtBp (m.get .rbp)) off toff ke e σ0 te ce v σ1 ka ke cca cce (by rw [Ea.1]; exact hce) hv hnce
+      (Nat.le_refl _)).then_same (R2 := fun r => Represents t r (convert t v)) (fun s hs => cast_run te t s v hs)
+    obtain ⟨hty, hE⟩ := EvJ.assignL (k0 := 0) (k1 := ke) hti Ea Ee ⟨Nat.le_refl _, fe.k, Nat.zero_le _, Nat.le_refl _⟩ (Nat.le_refl _)
+    obtain ⟨m', hrun, hrep, hH, hu⟩ := hE m _ _ rfl hf.2.1 (Nat.le_refl _) hf.1 (Nat.le_refl _) hf.2.2
+    refine ⟨m', hrun.runJ hnd, hrep, hu.rsp, hu.rbp, ?_, hu.mem⟩
+    exact ⟨by rw [hu.rsp]; exact hf.1, by rw [hty, hu.rsp, hu.rbp]; exact hf.2.1, hH⟩
+
+/-- non-vacuity: `*p = 300` with `p = &x`: `x` becomes 300 -/
+example : ∃ code, compileL lvEnv.tys exOff ptrToff 0 1 (.assign (.deref 0) .i32 (.lit .i64 300)) = some (.i32, code, 0, 1) ∧
+    lvAddr (lvState.get .rbp) exOff lvEnv (.deref 0) = some (frameAddr (lvState.get .rbp) (exOff 1), lvEnv) ∧
+    evalE lvEnv (.lit .i64 300) = some (300, lvEnv) ∧ lvEnv.tys[1]? = some .i32 ∧
+    FrameX lvEnv exOff ptrToff 0 (max (depthL (.deref 0)) (depthJ (.lit .i64 300) + 1)) lvState :=
+  ⟨_, rfl, lvAddr_ex, rfl, rfl, lvFrameX 0 _ (by omega) (by decide)⟩
+
+/-- **`lv op= e`** (and `++lv`, `--lv`: `e` the literal 1) — parse.c `to_assign`: `tmp = &lv, *tmp = *tmp op e`, for a member
+    `P.x`: `tmp = &P, (*tmp).x = (*tmp).x op e`: if the lvalue designates variable `i` of type `t`, C11 defines the value `v` of
+    `e` (type `te`) and `x op v` for the value `x` of `i` after `e` has been evaluated (`compound`: operands converted to the common
+    type, the result converted back to `t`), the code terminates, leaves `%rax` representing the new value `r`, and the frame
+    holds the store after `e` with `i` set to `r`; the lvalue's address is computed once. -/
+theorem C01_lvalue_opassign (σ : Env) (off toff : Nat → Int) (op : BinOp) (lv : LVal) (t te : ITy) (e : E) (code : List JI)
+    (K c0 c1 : Nat) (σ0 σ1 : Env) (i : Nat) (v x r : Int) (m : State)
+    (hc : compileL σ.tys off toff 0 c0 (.opassign op lv t e) = some (t, code, K, c1))
+    (haddr : lvAddr (m.get .rbp) off σ lv = some (frameAddr (m.get .rbp) (off i), σ0))
+    (hv : evalE σ0 e = some (v, σ1)) (hte : typeOf σ e = some te) (hx : σ1.vals[i]? = some x)
+    (hr : compound op t te x v = some r)
+    (hnc : noConflictL lv = true) (hnce : noConflict e = true) (hwf : wfL lv = true) (hti : σ.tys[i]? = some t)
+    (hf : FrameX σ off toff K (max (depthL lv + 1) (max (depthJ e + 1) 2)) m) :
+    ∃ m', runJ code.length code 0 m = some m' ∧ Represents t (m'.get .rax) r ∧ m'.get .rsp = m.get .rsp ∧
+      m'.get .rbp = m.get .rbp ∧ FrameX (σ1.set i r) off toff K (max (depthL lv + 1) (max (depthJ e + 1) 2)) m' ∧
+      (∀ a : BitVec 64, (m.get .rsp).toNat ≤ a.toNat → ¬ inVar σ.tys off (m.get .rbp) (wrL lv ++ (i :: wr e)) a →
+        ¬ inTmp toff (m.get .rbp) 0 K a → m'.mem a = m.mem a) := by
+  have hnd := (compileL_nodup σ.tys off toff 0 c0 _ t code K c1 hc).1
+  simp only [compileL] at hc
+  split at hc
+  · rename_i hcomp
+    cases hca : addrCode σ.tys off toff 0 c0 (splitMember lv).1 with
+    | none => simp [hca] at hc
+    | some pa =>
+      obtain ⟨cp, ka, cca⟩ := pa
+      simp only [hca, Option.map_eq_some_iff, Prod.mk.injEq] at hc
+      obtain ⟨⟨te', ce, ke, cce⟩, hce, _, h2, h3, h4⟩ := hc
+      simp only at h2 h3 h4
+      subst h2 h3 h4
+      obtain ⟨ap, dd, hap, hsum, hds⟩ := lvAddr_split _ off σ lv _ σ0 haddr
+      obtain ⟨s1, s2, s3, s4⟩ := split_facts lv
+      have fa := addrCode_facts σ.tys off toff _ 0 c0 cp ka cca hca
+      have fe := compileJ_facts σ.tys off toff e ka cca te' ce ke cce hce
+      have hte' : te' = te := by have := fe.ty σ rfl; rw [hte] at this; exact (Option.some.inj this).symm
+      subst hte'
+      have Ep := addr_ev (m.get .rbp) off toff (ke + 1) _ σ cp ap σ0 0 ka c0 cca hca hap (by rw [s1]; exact hnc)
+        (by rw [s2]; exact hwf) (by have := fe.k; omega)
+      have Ee := value_j (AtBp (m.get .rbp)) off toff (ke + 1) e σ0 te' ce v σ1 ka ke cca cce (by rw [Ep.1]; exact hce) hv hnce
+        (by omega)
+      simp only [compound, Option.map_eq_some_iff] at hr
+      obtain ⟨y, hy, rfl⟩ := hr
+      have hrel : op.isRel = false := by simpa [compoundable] using hcomp
+      have hsw : (nodeOf op).2 = false := by cases op <;> simp [BinOp.isRel] at hrel <;> rfl
+      have hk : 0 ≤ 0 ∧ ka ≤ ke ∧ 0 ≤ ka ∧ ke ≤ ke := ⟨Nat.le_refl _, fe.k, Nat.zero_le _, Nat.le_refl _⟩
+      rw [opAssignCodeL_eq] at hnd ⊢
+      by_cases hs : op.isShift = true
+      · simp only [hs, if_true] at hnd ⊢
+        obtain ⟨hty, hE⟩ := EvJ.opassignL (castB := []) (Rr := fun r => Represents te' r v) (t := binopOperandType op t te')
+          (tres := binopType op t te') (y := y) (nk := (nodeOf op).1) (k0 := 0) hti Ep hsum hds Ee
+          (fun s h => ⟨s, rfl, h, Same.refl s⟩) hx
+          (fun s h1 h2 => shift_step _ op (specOp_nodeOf op hsw) hs t te' x v y hy s h1 h2) hk (Nat.zero_le _) (by omega)
+        rw [s3, s4] at hE
+        obtain ⟨m', hrun, hrep, hH, hu⟩ := hE m _ _ rfl hf.2.1 (Nat.le_refl _) hf.1 (Nat.le_refl _) hf.2.2
+        refine ⟨m', hrun.runJ hnd, hrep, hu.rsp, hu.rbp, ?_, hu.mem⟩
+        exact ⟨by rw [hu.rsp]; exact hf.1, by rw [hty, hu.rsp, hu.rbp]; exact hf.2.1, hH⟩
+      · have hs' : op.isShift = false := by simpa using hs
+        simp only [hs', Bool.false_eq_true, if_false] at hnd ⊢
+        obtain ⟨hty, hE⟩ := EvJ.opassignL (castB := castSeq te' (binopOperandType op t te'))
+          (Rr := fun r => Represents (binopOperandType op t te') r (convert (binopOperandType op t te') v))
+          (t := binopOperandType op t te') (tres := binopType op t te') (y := y) (nk := (nodeOf op).1) (k0 := 0) hti Ep hsum hds Ee
+          (fun s h => cast_run te' _ s v h) hx
+          (fun s h1 h2 => arith_step _ op (specOp_nodeOf op hsw) hs' t te' x v y hy s h1 h2) hk (Nat.zero_le _) (by omega)
+        rw [s3, s4] at hE
+        obtain ⟨m', hrun, hrep, hH, hu⟩ := hE m _ _ rfl hf.2.1 (Nat.le_refl _) hf.1 (Nat.le_refl _) hf.2.2
+        refine ⟨m', hrun.runJ hnd, hrep, hu.rsp, hu.rbp, ?_, hu.mem⟩
+        exact ⟨by rw [hu.rsp]; exact hf.1, by rw [hty, hu.rsp, hu.rbp]; exact hf.2.1, hH⟩
+  · simp at hc
+
+/-- non-vacuity: `*p *= 3` with `p = &x`, `x = 7`: `x` becomes 21 (one hidden temporary) -/
+example : ∃ code, compileL lvEnv.tys exOff ptrToff 0 1 (.opassign .mul (.deref 0) .i32 (.lit .i32 3)) = some (.i32, code, 1, 1) ∧
+    lvAddr (lvState.get .rbp) exOff lvEnv (.deref 0) = some (frameAddr (lvState.get .rbp) (exOff 1), lvEnv) ∧
+    evalE lvEnv (.lit .i32 3) = some (3, lvEnv) ∧ typeOf lvEnv (.lit .i32 3) = some .i32 ∧ lvEnv.vals[1]? = some 7 ∧
+    compound .mul .i32 .i32 7 3 = some 21 ∧ lvEnv.tys[1]? = some .i32 ∧
+    FrameX lvEnv exOff ptrToff 1 (max (depthL (.deref 0) + 1) (max (depthJ (.lit .i32 3) + 1) 2)) lvState :=
+  ⟨_, rfl, lvAddr_ex, rfl, rfl, rfl, by decide, rfl, lvFrameX 1 _ (by omega) (by decide)⟩
 
 /-- one step on a value already in `%rax` (the fragment proved before `C01_value`; kept, now a special case): a leaf
     followed by any chain of casts and unary operators is `C01_load` / `C01_cast` / `C01_unary_full` / `C01_lognot`
